@@ -217,16 +217,73 @@ def flow_safety_threshold(prog: Program, rep, RID: str):
     t = hits[0].test
     if not (isinstance(t, ast.Compare) and len(t.ops) == 1):
         raise AnalysisError(f"flow-safe paths: cannot interpret the stop test `{norm(t)}`")
-    P = to_poly(substitute_locals(t.left, defs)) - to_poly(substitute_locals(t.comparators[0], defs))
+    class _PlainNumber(ast.NodeTransformer):
+        """`X.item() if hasattr(X, 'item') else X` (a numpy scalar read as a Python number) is X"""
+
+        def visit_IfExp(self, node):
+            self.generic_visit(node)
+            tt = norm(node.test)
+            if tt.startswith("hasattr(") and "'item'" in tt and norm(node.body) == norm(node.orelse) + ".item()":
+                return node.orelse
+            return node
+    # nested readers `def upper(u, v): value = G.edges[u, v][upperbound_attr]; return <value as a Python number>` stand for the subscript
+    readers = {}
+    for fd in [n for n in ast.walk(f.node) if isinstance(n, ast.FunctionDef) and n is not f.node and len(n.args.args) == 2]:
+        first = fd.body[0] if fd.body else None
+        if isinstance(first, ast.Assign) and isinstance(first.value, ast.Subscript) and norm(first.value.value) == f"G.edges[{fd.args.args[0].arg}, {fd.args.args[1].arg}]":
+            readers[fd.name] = norm(first.value.slice)
+
+    class _Readers(ast.NodeTransformer):
+        def visit_Call(self, node):
+            self.generic_visit(node)
+            if isinstance(node.func, ast.Name) and node.func.id in readers and len(node.args) == 2:
+                return ast.parse(f"G.edges[{norm(node.args[0])}, {norm(node.args[1])}][{readers[node.func.id]}]", mode="eval").body
+            return node
+
+    def canon(e):
+        e = ast.parse(norm(substitute_locals(e, defs)), mode="eval").body
+        return _PlainNumber().visit(_Readers().visit(e))
+    left = canon(t.left)
+    right = canon(t.comparators[0])
+    P = to_poly(left) - to_poly(right)
     c = P.coeff(("inexact_excess",))
     op = t.ops[0]
+    # a tolerance: `excess <= eps` with 0 <= eps <= 1e-6 stands for `excess <= 0` on floats (an exact 0 comes out as 5.55e-17)
+    eps = P.coeff(())
+    exact_numbers = "Fraction" in " ".join(norm(x) for x in f.node.body)
+    tolerance = eps != 0 and c != 0 and 0 < -eps / c <= 1e-6
+    if tolerance:
+        from sa.poly import Poly
+        P = P - Poly.const(eps)
+    elif eps != 0:
+        raise AnalysisError(f"flow-safe paths: the stop test `{norm(t)}` compares the excess with {-eps / c if c else eps}, not with 0 (or a tolerance <= 1e-6)")
     # expected: excess + U(next) - sum of U over the out-edges of the current node
     atoms = sorted(a for a in P.atoms() if a != "inexact_excess")
     shape = c != 0 and len(atoms) == 2 and any(a.startswith("sum(") and "out_edges(path[R])" in a for a in atoms) and \
         any("path[R], path[R + 1]" in a and "upperbound_attr" in a for a in atoms)
+    # the report of a window is guarded by a positive excess (a one-edge window whose lower bound is 0 is in no decomposition path)
+    reports = [st for st in ast.walk(f.node) if isinstance(st, ast.If) and "path_not_suffix_of_previous" in norm(st.test) and
+               any("safe_paths" in norm(x) for x in st.body)]
+    if len(reports) != 1:
+        raise AnalysisError("flow-safe paths: the statement that reports a window was not found")
+    rt = norm(reports[0].test)
+    m_ = re.search(r"inexact_excess > ([0-9.e+-]+)", rt)
+    if m_ and float(m_.group(1)) == 0 and not exact_numbers:
+        rep.violation(RID, key + ":float-zero", f"a window is reported when its excess is `> 0` exactly: the excess is a running sum of the caller's (float) flow values, an excess "
+                      "that is 0 comes out as 5.55e-17 and the window is reported safe (flows 0.1 + 0.2 vs 0.3)", f.loc(reports[0]))
+    elif m_ and 0 <= float(m_.group(1)) <= 1e-6:
+        rep.ok(RID, key + ":report", f"a window is reported only with positive excess (`{rt}`)", f.loc(reports[0]))
+    elif "inexact_excess" not in rt:
+        rep.violation(RID, key + ":report", f"a window is reported under `{rt}` whatever its excess is: the initial one-edge window has excess = lower bound of the edge, "
+                      "so an edge with lower bound 0 is reported safe although the flow that puts 0 on it has a decomposition avoiding it", f.loc(reports[0]))
+    else:
+        raise AnalysisError(f"flow-safe paths: report condition `{rt}` not understood")
     nonstrict = (c > 0 and isinstance(op, ast.LtE)) or (c < 0 and isinstance(op, ast.GtE))
     strict = (c > 0 and isinstance(op, ast.Lt)) or (c < 0 and isinstance(op, ast.Gt))
-    if shape and nonstrict:
+    if shape and nonstrict and not tolerance and not exact_numbers:
+        rep.violation(RID, key + ":float-zero", f"the stop test `{norm(t)}` compares the running excess with 0 exactly: with float flow values an excess that is 0 comes out as "
+                      "5.55e-17, the window is extended and reported safe although its excess flow is 0", f.loc(hits[0]))
+    elif shape and nonstrict:
         rep.ok(RID, key, "the extension stops when excess + f(next) - sum f(out-edges) <= 0: only strictly positive excess is reported safe", f.loc(hits[0]),
                sample={"stop_test": norm(t), "normal_form": repr(P) + (" <= 0" if c > 0 else " >= 0")})
     elif shape and strict:
@@ -294,6 +351,37 @@ def slot_symmetry(prog: Program, rep, RID: str):
                           g.loc())
 
 
+def scan_reads_python_numbers(prog: Program, rep, RID: str):
+    """The excess-flow scan subtracts bounds; with unsigned numpy integers a negative difference wraps around to about 2**32 / 2**64 and the
+    stop test is never true.  Inside the scan loops the bounds are read through a reader that returns Python numbers - never subtracted raw."""
+    f = prog.function("flowpaths.utils.safetyflowdecomp", "compute_inexact_flow_decomp_safe_paths")
+    loops = [n for n in f.node.body if isinstance(n, ast.For)]
+    scan = [lp for lp in loops if any(isinstance(x, ast.While) for x in ast.walk(lp))]
+    if not scan:
+        raise AnalysisError("flow-safe paths: the two-pointer scan loop was not found")
+    raw = []
+    for lp in scan:
+        for node in ast.walk(lp):
+            if isinstance(node, (ast.BinOp, ast.AugAssign)) and isinstance(node.op, (ast.Sub, ast.Add)):
+                ops = [node.left, node.right] if isinstance(node, ast.BinOp) else [node.value]
+                for o in ops:
+                    for sub in ast.walk(o):
+                        if isinstance(sub, ast.Subscript) and norm(sub.value).startswith("G.edges[") and norm(sub.slice) in ("upperbound_attr", "lowerbound_attr"):
+                            raw.append(node)
+            if isinstance(node, ast.Assign) and isinstance(node.value, ast.Subscript) and norm(node.value.value).startswith("G.edges[") and \
+                    norm(node.value.slice) in ("upperbound_attr", "lowerbound_attr") and norm(node.targets[0]) == "inexact_excess":
+                raw.append(node)
+    key = "compute_inexact_flow_decomp_safe_paths:python-numbers"
+    readers = [fd for fd in ast.walk(f.node) if isinstance(fd, ast.FunctionDef) and fd is not f.node and any(".item()" in norm(x) for x in ast.walk(fd) if isinstance(x, ast.Return))]
+    if raw:
+        rep.violation(RID, key, f"the scan computes `{norm(raw[0])[:90]}` on the caller's scalars: with np.uint8/16/32/64 flow values a negative difference wraps around, the stop "
+                      "test is never true and every greedy decomposition path is reported safe in full", f.loc(raw[0]))
+    elif readers:
+        rep.ok(RID, key, f"bounds are read through {', '.join(fd.name for fd in readers)} (Python numbers)", f.loc(readers[0]))
+    else:
+        raise AnalysisError("flow-safe paths: neither raw arithmetic on the bounds nor a reader returning Python numbers was found")
+
+
 def check(prog: Program, rep):
     rep.rule("C06.R1", "mutate/restore pairing on the shared adjacency dict", floor=2)
     restore_rule(prog, rep, "C06.R1", "flowpaths.utils.safetypathcovers", "find_all_bridges")
@@ -311,3 +399,7 @@ def check(prog: Program, rep):
     from rules import plumb
     from rules.common import RuleProxy
     plumb.whole_flow_shortcuts_rule(prog, RuleProxy(rep, "C06.R6"), "C10.R8")
+    rep.rule("C06.R7", "the safety traversals are iterative (no function of the safety modules calls itself); the flow-safety scan reads the bounds as Python numbers", floor=2)
+    from rules.values import no_recursion
+    no_recursion(prog, rep, "C06.R7", ["flowpaths.utils.dominators", "flowpaths.utils.safetyflowdecomp", "flowpaths.utils.safetypathcovers", "flowpaths.utils.safetypathcoverscycles"])
+    scan_reads_python_numbers(prog, rep, "C06.R7")
